@@ -64,6 +64,20 @@ func TestC15E2E(t *testing.T) {
 		crd := "crontabs.example.com"
 		grp := []string{"", "", "stable.example.com/"}
 		sp := func(i int) string { return grp[rng.IntN(len(grp))] + fmt.Sprintf("v%d", i) }
+		// every fourth chain of two or more steps: an intermediate version carries the desired version's short
+		// name under ANOTHER group (all versions spelled with their group, so nothing is ambiguous): the chain
+		// must not stop there.
+		crossGroup := L >= 2 && c.Index%4 == 1
+		crossAt := 0
+		if crossGroup {
+			crossAt = 2 + rng.IntN(L-1) // one of the intermediate versions 2..L
+			sp = func(i int) string {
+				if i == crossAt {
+					return fmt.Sprintf("other.example.com/v%d", L+1)
+				}
+				return fmt.Sprintf("stable.example.com/v%d", i)
+			}
+		}
 		type rule struct{ From, To, Hook, Binding string }
 		var rules []rule
 		nHooks := 1 + rng.IntN(3)
@@ -112,6 +126,9 @@ func TestC15E2E(t *testing.T) {
 		nObj := 1 + rng.IntN(3)
 		fromSpelled := grp[rng.IntN(len(grp))] + "v1"
 		desired := grp[rng.IntN(len(grp))] + fmt.Sprintf("v%d", L+1)
+		if crossGroup {
+			fromSpelled, desired = "stable.example.com/v1", fmt.Sprintf("stable.example.com/v%d", L+1)
+		}
 		var objs []any
 		for i := 0; i < nObj; i++ {
 			objs = append(objs, m{"apiVersion": fromSpelled, "kind": "CronTab", "metadata": m{"name": fmt.Sprintf("o%d", i), "namespace": "default"}, "spec": m{"n": float64(i)}})
@@ -275,7 +292,7 @@ func TestC15E2E(t *testing.T) {
 			}
 		}
 		res.Count("chain_steps_invoked", int64(len(execs)))
-		res.Key = fmt.Sprintf("L%d-%s-obj%d", L, strings.Join(v, ","), nObj)
+		res.Key = fmt.Sprintf("L%d-%s-obj%d-x%v", L, strings.Join(v, ","), nObj, crossGroup)
 		if c.Index < 3 {
 			res.Sample = m{"case": desc}
 		}
